@@ -147,6 +147,8 @@ struct Slot {
     compacted_after_commit: bool,
     #[allow(dead_code)]
     flushed_after_commit: bool,
+    /// number of failed commits recorded when this transaction began (fault-injection workloads)
+    failed_at_begin: usize,
 }
 
 pub struct Exec<'a> {
@@ -682,6 +684,7 @@ impl<'a> Exec<'a> {
                     begun_at_commit: self.model.len(),
                     compacted_after_commit: false,
                     flushed_after_commit: false,
+            failed_at_begin: self.failed_commits.len(),
                 });
                 self.stats.inc("begin");
             }
@@ -1419,6 +1422,26 @@ impl<'a> Exec<'a> {
                     }
                 }
             }
+            (Ok(()), true) if self.opts.tolerate_commit_errors => {
+                // fault-injection workloads judge conflicts only in relation to failed commits (the rest is C04's)
+                let fb = self.slots[s].as_ref().map(|sl| sl.failed_at_begin).unwrap_or(0);
+                let related = self.failed_commits[fb.min(self.failed_commits.len())..].iter().any(|fc| fc.2.iter().any(|(k, _)| writes.iter().any(|w| w.1.key == *k)));
+                if related {
+                    return self.fail_aux(
+                        "lost-update-after-failed-commit",
+                        format!("commit succeeded although a key of its write set was committed by another transaction after it began (h={h}, commits now {}); in between a commit that wrote the same key had returned an error", self.model.len()),
+                        json!({"failed_commit_on_same_key_since_begin": true}),
+                    );
+                }
+                self.stats.inc("lost_update_not_judged_in_fault_mode");
+                let sl = self.slots[s].as_mut().unwrap();
+                sl.closed = true;
+                sl.pending = Pending::default();
+                if !writes.is_empty() {
+                    self.model.push(Commit { writes: writes.into_iter().map(|w| w.1).collect() });
+                    self.stats.inc("commits");
+                }
+            }
             (Ok(()), true) => {
                 return self.fail_aux(
                     "lost-update",
@@ -1449,6 +1472,21 @@ impl<'a> Exec<'a> {
                     self.failed_commits.push((cidx, err_name(&e), writes.iter().map(|w| (w.1.key.clone(), w.1.op)).collect()));
                     self.failed_invisible("right after the failed commit")?;
                 }
+            }
+            (Err(e), false) if self.opts.tolerate_commit_errors && matches!(e, Error::TransactionWriteConflict | Error::TransactionRetry) => {
+                let fb = self.slots[s].as_ref().map(|sl| sl.failed_at_begin).unwrap_or(0);
+                let related = self.failed_commits[fb.min(self.failed_commits.len())..].iter().any(|fc| fc.2.iter().any(|(k, _)| writes.iter().any(|w| w.1.key == *k)));
+                let mut sl = self.slots[s].take().unwrap();
+                sl.cursor = None;
+                drop(sl);
+                if related {
+                    return self.fail_aux(
+                        "conflict-caused-by-failed-commit",
+                        format!("commit was refused with {} although the only transaction that wrote one of its keys since it began had itself returned an error (h={h}, commits={})", err_name(&e), self.model.len()),
+                        self.aux(),
+                    );
+                }
+                self.stats.inc("spurious_conflict_not_judged_in_fault_mode");
             }
             (Err(e), _) => {
                 let class = if matches!(e, Error::TransactionWriteConflict | Error::TransactionRetry) { "spurious-conflict" } else { "commit-error" };
